@@ -373,13 +373,26 @@ class VecEnvWrapper(VecEnv):
         action_space: Optional[spaces.Space] = None,
     ):
         self.venv = venv
+        # The base class constructor (re)initializes ``reset_infos``: keep the ones of the wrapped env
+        reset_infos = getattr(venv, "reset_infos", None)
 
         super().__init__(
             num_envs=venv.num_envs,
             observation_space=observation_space or venv.observation_space,
             action_space=action_space or venv.action_space,
         )
+        if reset_infos is not None:
+            self.reset_infos = reset_infos
         self.class_attributes = dict(inspect.getmembers(self.__class__))
+
+    @property
+    def reset_infos(self) -> list[dict[str, Any]]:
+        # The infos of the last reset are written by the wrapped env (``reset()`` and the automatic resets of ``step()``)
+        return self.venv.reset_infos
+
+    @reset_infos.setter
+    def reset_infos(self, reset_infos: list[dict[str, Any]]) -> None:
+        self.venv.reset_infos = reset_infos
 
     def step_async(self, actions: np.ndarray) -> None:
         self.venv.step_async(actions)
